@@ -665,6 +665,9 @@ def valid(ctx, f, cfg):
         for s in blk["stmts"]:
             if s["k"] == "assign" and s["lhs"]["l"] == 0 and s["rv"]["k"] == "agg" and s["rv"].get("variant") == "Err":
                 errs.add(bi)
+        t_ = blk["term"]
+        if t_ and t_["k"] == "call" and callee_def(t_).endswith("from_residual") and t_["dest"]["l"] == 0 and not t_["dest"]["p"]:
+            errs.add(bi)        # `sub_check()?`: the error of a helper is handed on
     paths = [p for p in w.walk(0, lambda bb, env: ("err",) if bb in errs else None) if p["outcome"][0] in ("err", "return")]
 
     def outcome(p, asg):
